@@ -63,7 +63,7 @@ package stack
 //@   requires implies(protocol == header.UDPProtocolNumber, len(hdr.buf) - hdr.usedIdx >= 8 && int(be16(hdr.buf, hdr.usedIdx + 4)) == len(hdr.buf) - hdr.usedIdx + payload.size)
 //@   requires implies(protocol == header.TCPProtocolNumber, len(hdr.buf) - hdr.usedIdx >= 20 && int(hdr.buf[hdr.usedIdx + 12] >> 4) * 4 == len(hdr.buf) - hdr.usedIdx)
 //@   ensures implies(protocol == header.TCPProtocolNumber, ghost(tcpSegs) == old(ghost(tcpSegs)) + 1
-//@             && ghost(lastTCPFlags) == int(old(hdr.buf[hdr.usedIdx + 13])) && ghost(lastTCPSeq) == int(be32(old(hdr.buf), hdr.usedIdx + 4)) && ghost(lastTCPAck) == int(be32(old(hdr.buf), hdr.usedIdx + 8)))
+//@             && ghost(lastTCPFlags) == int(old(hdr.buf[hdr.usedIdx + 13])) && ghost(lastTCPSeq) == int(old(be32(hdr.buf, hdr.usedIdx + 4))) && ghost(lastTCPAck) == int(old(be32(hdr.buf, hdr.usedIdx + 8))))
 //@   ensures implies(protocol != header.TCPProtocolNumber, ghost(tcpSegs) == old(ghost(tcpSegs)))
 //@   modifies everything(), ghost(tcpSegs), ghost(lastTCPFlags), ghost(lastTCPSeq), ghost(lastTCPAck)
 
